@@ -25,6 +25,28 @@ def sym(a, b):
     return frozenset(a) ^ frozenset(b)
 
 
+NEW = "NEW"
+
+
+def uniform(reg):
+    """value every byte of the buffer holds, over {OLD, NEW} (NEW = zero-padded new tweak at that position)."""
+    if reg is None or reg.get("head") is None or reg.get("tail") is None:
+        return None
+    h, t = reg["head"], reg["tail"]
+    if h == t:
+        return frozenset(t)
+    if ARG in h and ARG not in t and frozenset(h) - {ARG} == frozenset(t):
+        return frozenset(t) | {NEW}
+    return None
+
+
+def regions_of(u):
+    if u is None:
+        return {"head": UNK, "tail": UNK}
+    base = frozenset(u) - {NEW}
+    return {"head": base | ({ARG} if NEW in u else frozenset()), "tail": base}
+
+
 def is_xor_helper(g):
     """(dst, a, b, n): every store goes to *dst and stores load(a-derived) ^ load(b-derived)."""
     if len(g.params) < 4 or g.decl:
@@ -191,6 +213,34 @@ class Algebra:
             total = {"head": frozenset(), "tail": frozenset()}
             null_path = None
             calls = []
+            bytes_ = {}         # buffer -> {position: value over {OLD, NEW} | None}
+            bval = {}           # SSA byte values
+
+            def flush(bid):
+                """fold complete byte-wise contents back into the two regions"""
+                bs = bytes_.pop(bid, None)
+                if not bs:
+                    return
+                if len(bs) == self.tsz and all(v is not None for v in bs.values()) and len(set(bs.values())) == 1:
+                    st[bid] = regions_of(next(iter(bs.values())))
+                else:
+                    st[bid] = {"head": UNK, "tail": UNK}
+
+            def byte_of(op):
+                if op[0] == "c":
+                    return frozenset() if int(op[1]) == 0 else None
+                if op[0] != "i":
+                    return None
+                if op[1] in bval:
+                    return bval[op[1]]
+                ii = f.insts[op[1]]
+                if ii["op"] in ("zext", "sext", "trunc") or ii["op"] in CASTS:
+                    return byte_of(ii["ops"][0])
+                if ii["op"] == "xor":
+                    return sym(byte_of(ii["ops"][0]), byte_of(ii["ops"][1]))
+                if ii["op"] == "phi" and ii["id"] in env:
+                    return byte_of(env[ii["id"]])
+                return None
             for k, b in enumerate(path):
                 prev = path[k - 1] if k else None
                 for i in f.bbmap[b]["insts"]:
@@ -199,15 +249,35 @@ class Algebra:
                         for v, pb in zip(i["ops"], i["inblocks"]):
                             if pb == prev:
                                 env[i["id"]] = v
+                    elif o == "load" and i.get("size") == 1:
+                        bf = self.buf(i["ops"][0])
+                        if bf is not None and lf_is_const(bf[1]) and 0 <= bf[1][0] < self.tsz:
+                            if bf[0] in bytes_ and bf[1][0] in bytes_[bf[0]]:
+                                bval[i["id"]] = bytes_[bf[0]][bf[1][0]]
+                            elif bf[0] == "arg":
+                                bval[i["id"]] = None        # raw caller byte: only meaningful below tweak_size
+                            else:
+                                bval[i["id"]] = uniform(st.get(bf[0]))
                     elif o == "store":
                         bf = self.buf(i["ops"][1])
                         if bf is not None and bf[0] != "arg":
-                            st.setdefault(bf[0], {"head": UNK, "tail": UNK})
-                            st[bf[0]] = {"head": UNK, "tail": UNK}
+                            if i.get("size") == 1 and lf_is_const(bf[1]) and 0 <= bf[1][0] < self.tsz:
+                                if bf[0] not in bytes_:
+                                    # positions not yet rewritten keep the buffer's uniform content
+                                    u = uniform(st.get(bf[0]))
+                                    bytes_[bf[0]] = {k2: u for k2 in range(self.tsz)} if u is not None else {}
+                                bytes_[bf[0]][bf[1][0]] = byte_of(i["ops"][0])
+                            else:
+                                bytes_.pop(bf[0], None)
+                                st[bf[0]] = {"head": UNK, "tail": UNK}
                     elif o == "call":
                         base = i.get("intrinsic") or (i["callee"][1] if i["callee"][0] == "f" else "")
                         if base.startswith(("llvm.dbg", "llvm.lifetime")):
                             continue
+                        for o2 in i["ops"]:
+                            bf2 = self.buf(o2) if o2[0] in ("i", "a") else None
+                            if bf2 is not None:
+                                flush(bf2[0])
                         if base in ("llvm.memset",):
                             d = self.buf(i["ops"][0])
                             if d is None or d[0] == "arg":
@@ -293,6 +363,8 @@ class Algebra:
                                     null_path = "infeasible"
                                 elif null_path is None:
                                     null_path = isnull
+            for bid in list(bytes_):
+                flush(bid)
             if null_path == "infeasible":
                 continue
             # success?
